@@ -353,7 +353,7 @@ func (p *CPU) execInst(bus *device.Bus, as abi.As, arg *abi.AsRawArgument) error
 		}
 	case riscv.ADIVUW:
 		if p.RegX[arg.Rs2] != 0 {
-			p.RegX[arg.Rd] = RVUInt(uint32(p.RegX[arg.Rs1]) / uint32(p.RegX[arg.Rs2]))
+			p.RegX[arg.Rd] = RVUInt(int32(uint32(p.RegX[arg.Rs1]) / uint32(p.RegX[arg.Rs2])))
 		} else {
 			v := int64(-1)
 			p.RegX[arg.Rd] = RVUInt(v)
@@ -362,13 +362,13 @@ func (p *CPU) execInst(bus *device.Bus, as abi.As, arg *abi.AsRawArgument) error
 		if p.RegX[arg.Rs2] != 0 {
 			p.RegX[arg.Rd] = RVUInt(int32(p.RegX[arg.Rs1]) % int32(p.RegX[arg.Rs2]))
 		} else {
-			p.RegX[arg.Rd] = p.RegX[arg.Rs1]
+			p.RegX[arg.Rd] = RVUInt(int32(p.RegX[arg.Rs1]))
 		}
 	case riscv.AREMUW:
 		if p.RegX[arg.Rs2] != 0 {
-			p.RegX[arg.Rd] = RVUInt(uint32(p.RegX[arg.Rs1]) % uint32(p.RegX[arg.Rs2]))
+			p.RegX[arg.Rd] = RVUInt(int32(uint32(p.RegX[arg.Rs1]) % uint32(p.RegX[arg.Rs2])))
 		} else {
-			p.RegX[arg.Rd] = RVUInt(uint32(p.RegX[arg.Rs1]))
+			p.RegX[arg.Rd] = RVUInt(int32(p.RegX[arg.Rs1]))
 		}
 	}
 	return nil
